@@ -25,7 +25,18 @@ type UnionBranch struct {
 	Off int  `json:"off,omitempty"`
 }
 
+// UnionNest: branches At and At+1 stand in parentheses as a union of their own, optionally with a window of
+// its own: `( b_At op b_At+1 [LIMIT Lim [OFFSET Off]] )`; op is the operator of branch At+1, the group is joined
+// to what precedes it by the operator of branch At.
+type UnionNest struct {
+	At     int  `json:"at"`
+	HasLim bool `json:"has_lim,omitempty"`
+	Lim    int  `json:"lim,omitempty"`
+	Off    int  `json:"off,omitempty"`
+}
+
 type C06Case struct {
+	Nest     *UnionNest     `json:"nest,omitempty"`
 	Doc      map[string]any `json:"doc"`
 	Env      Envelope       `json:"env,omitempty"` // irrelevant options / table representation / repeated execution
 	Mode     string         `json:"mode"`          // distinct | union
@@ -61,7 +72,7 @@ func init() {
 		Title: "DISTINCT removes exactly the duplicates; UNION [ALL] concatenates [and dedups]",
 		Rule: "rapid draws tables with heavy duplication (value pools of 2-3 per column), select lists of columns and simple expressions, and " +
 			"either SELECT DISTINCT (oracle: reference first-occurrence sequence; also SELECT DISTINCT * over heterogeneous rows whose key sets differ at equal width, and SELECT DISTINCT over a grouped aggregate-only select list) or a union chain of 2-4 branches (a fifth of the later branches rename their output columns) " +
-			"with any mix of UNION / UNION ALL (a fifth of the branches parenthesised with a LIMIT / OFFSET of their own; two fifths of the chains made of aggregate branches, whole or grouped, with the same textual aggregates) and an optional trailing LIMIT, half of them with an OFFSET in either spelling; SELECT DISTINCT without ORDER BY also under LIMIT / OFFSET (exact window of the first-occurrence sequence) (oracle: left-associative reference; pure UNION ALL chains compared " +
+			"with any mix of UNION / UNION ALL (a quarter of the chains of 3+ branches put two neighbouring branches in parentheses as a union of their own, mostly with a LIMIT / OFFSET of its own - a cutting window over a de-duplicated pair admits any subset of that size, all of them are tried; a fifth of the branches parenthesised with a LIMIT / OFFSET of their own; two fifths of the chains made of aggregate branches, whole or grouped, with the same textual aggregates) and an optional trailing LIMIT, half of them with an OFFSET in either spelling; SELECT DISTINCT without ORDER BY also under LIMIT / OFFSET (exact window of the first-occurrence sequence) (oracle: left-associative reference; pure UNION ALL chains compared " +
 			"as sequence, others as multiset with the reference's multiplicities; LIMIT n OFFSET m: length of the window [m, m+n) of the combined result, exact window for pure UNION ALL " +
 			"chains, else a sub-multiset of the combined result that is duplicate-free when the last operator is UNION). Non-trivial: >=1 duplicate " +
 			"output row / overlapping branches.",
@@ -227,6 +238,16 @@ func genC06(t *rapid.T) any {
 		c.AggKey, c.SumCol = names[0], names[2]
 	}
 	var parts []string
+	if nb >= 3 && rapid.IntRange(0, 3).Draw(t, "nest") == 0 {
+		c.Nest = &UnionNest{At: rapid.IntRange(0, nb-2).Draw(t, "nest.at")}
+		if rapid.IntRange(0, 3).Draw(t, "nest.haslim") != 0 {
+			c.Nest.HasLim = true
+			c.Nest.Lim = rapid.IntRange(0, 5).Draw(t, "nest.lim")
+			if rapid.Bool().Draw(t, "nest.hasoff") {
+				c.Nest.Off = rapid.IntRange(0, 3).Draw(t, "nest.off")
+			}
+		}
+	}
 	for b := 0; b < nb; b++ {
 		key := "t"
 		if b > 0 && rapid.IntRange(0, 3).Draw(t, fmt.Sprintf("b%d.same", b)) != 0 {
@@ -275,6 +296,18 @@ func genC06(t *rapid.T) any {
 			} else {
 				parts = append(parts, "UNION")
 			}
+		}
+		if c.Nest != nil && b == c.Nest.At {
+			s = "(" + s
+		}
+		if c.Nest != nil && b == c.Nest.At+1 {
+			if c.Nest.HasLim {
+				s += fmt.Sprintf(" LIMIT %d", c.Nest.Lim)
+				if c.Nest.Off > 0 {
+					s += fmt.Sprintf(" OFFSET %d", c.Nest.Off)
+				}
+			}
+			s += ")"
 		}
 		parts = append(parts, s)
 	}
@@ -419,12 +452,14 @@ func checkC06(c *C06Case) Result {
 		}
 		return res
 	}
-	// union chain, left-associative
-	combined := []any{}
-	pureAll := true
-	overlap := false
-	ops := ""
-	for i, br := range c.Branches {
+	// union chain, left-associative; a parenthesised pair of branches is one operand
+	type unit struct {
+		cands [][]any // admissible results of this operand (more than one: a cutting window over a de-duplicated pair)
+		all   bool
+	}
+	var units []unit
+	for i := 0; i < len(c.Branches); i++ {
+		br := c.Branches[i]
 		rows, _ := c.Doc[br.Table].([]any)
 		part, err := refProject(rows, c.branchItems(br), 0, br.Where, env)
 		if c.Agg != "" {
@@ -439,67 +474,171 @@ func checkC06(c *C06Case) Result {
 			part = part[lo:minInt(len(part), lo+br.Lim)]
 			res.Labels = append(res.Labels, "branch-window")
 		}
-		if i == 0 {
-			combined = part
+		if c.Nest != nil && i == c.Nest.At+1 {
+			// second branch of the parenthesised pair: fold it into the pair's operand
+			u := &units[len(units)-1]
+			s := append(append([]any{}, u.cands[0]...), part...)
+			if !br.All {
+				s = dedupRows(s)
+			}
+			u.cands = [][]any{s}
+			label := "nested-union:no-window"
+			if c.Nest.HasLim {
+				lo := minInt(c.Nest.Off, len(s))
+				hi := minInt(len(s), lo+c.Nest.Lim)
+				switch {
+				case br.All || hi-lo == len(s):
+					u.cands = [][]any{s[lo:hi]}
+					label = "nested-union:window-determined"
+				default:
+					// the statement does not order the rows of a UNION: any hi-lo of its rows may be in the window
+					u.cands = subsetsOf(s, hi-lo, 3000)
+					label = "nested-union:window-any-subset"
+					if u.cands == nil {
+						res.Discard = "nested UNION window with too many admissible subsets"
+						return res
+					}
+				}
+			}
+			res.Labels = append(res.Labels, label)
 			continue
 		}
-		before := len(combined) + len(part)
-		combined = append(append([]any{}, combined...), part...)
-		if !br.All {
+		units = append(units, unit{cands: [][]any{part}, all: br.All})
+	}
+	multi := -1
+	for i, u := range units {
+		if len(u.cands) > 1 {
+			multi = i
+		}
+	}
+	nc := 1
+	if multi >= 0 {
+		nc = len(units[multi].cands)
+	}
+	pureAll := true
+	for i, br := range c.Branches {
+		if i > 0 && !br.All {
 			pureAll = false
-			combined = dedupRows(combined)
-			ops += "U"
-		} else {
-			ops += "A"
 		}
-		if len(dedupRows(combined)) < before {
-			overlap = true
+	}
+	ops := ""
+	overlap := false
+	var combos [][]any
+	for k := 0; k < nc; k++ {
+		combined := []any{}
+		for i, u := range units {
+			part := u.cands[0]
+			if i == multi {
+				part = u.cands[k]
+			}
+			if i == 0 {
+				combined = part
+				continue
+			}
+			before := len(combined) + len(part)
+			combined = append(append([]any{}, combined...), part...)
+			if !u.all {
+				combined = dedupRows(combined)
+			}
+			if k == 0 {
+				if u.all {
+					ops += "A"
+				} else {
+					ops += "U"
+				}
+				if len(dedupRows(combined)) < before {
+					overlap = true
+				}
+			}
 		}
+		combos = append(combos, combined)
 	}
 	res.Labels = append(res.Labels, fmt.Sprintf("branches:%d", len(c.Branches)), "ops:"+ops)
 	if c.Agg != "" {
 		res.Labels = append(res.Labels, "aggregate-branches:"+c.Agg)
 	}
 	res.NonTrivial = overlap
-	lastIsUnion := !c.Branches[len(c.Branches)-1].All
+	lastIsUnion := !units[len(units)-1].all
 	out := c.exec()
 	res.Execs++
 	if !out.OK() {
-		res.Violation = fmt.Sprintf("%s\n  expected %s\n  got %s", c.SQL, val.JSON(combined), out.Describe())
+		res.Violation = fmt.Sprintf("%s\n  expected %s\n  got %s", c.SQL, val.JSON(combos[0]), out.Describe())
 		return res
 	}
-	if !c.HasLimit {
-		if pureAll {
-			if d := diffRows(out.Rows, combined); d != "" {
-				res.Violation = fmt.Sprintf("%s\n  %s\n  expected sequence %s\n  got               %s", c.SQL, d, val.JSON(combined), val.JSON(out.Rows))
+	if c.HasLimit {
+		res.Labels = append(res.Labels, "limit", fmt.Sprintf("limit-offset:%v", c.Offset > 0))
+	}
+	judge := func(combined []any) string {
+		if !c.HasLimit {
+			if pureAll {
+				if d := diffRows(out.Rows, combined); d != "" {
+					return fmt.Sprintf("%s\n  %s\n  expected sequence %s\n  got               %s", c.SQL, d, val.JSON(combined), val.JSON(out.Rows))
+				}
+				return ""
 			}
+			if !val.MultisetEqual(out.Rows, combined) {
+				return fmt.Sprintf("%s\n  expected multiset (%d rows) %s\n  got               (%d rows) %s", c.SQL, len(combined), val.JSON(combined), len(out.Rows), val.JSON(out.Rows))
+			}
+			return ""
+		}
+		wantLen := len(c.window(combined))
+		if len(out.Rows) != wantLen {
+			return fmt.Sprintf("%s\n  combined result has %d rows, LIMIT %d OFFSET %d must return %d, got %d: %s", c.SQL, len(combined), c.Limit, c.Offset, wantLen, len(out.Rows), val.JSON(out.Rows))
+		}
+		if pureAll {
+			if d := diffRows(out.Rows, c.window(combined)); d != "" {
+				return fmt.Sprintf("%s\n  %s\n  expected window %s\n  got             %s", c.SQL, d, val.JSON(c.window(combined)), val.JSON(out.Rows))
+			}
+			return ""
+		}
+		if !val.SubMultiset(out.Rows, combined) {
+			return fmt.Sprintf("%s\n  limited result is not part of the combined result\n  combined %s\n  got      %s", c.SQL, val.JSON(combined), val.JSON(out.Rows))
+		}
+		if lastIsUnion && len(dedupRows(out.Rows)) != len(out.Rows) {
+			return fmt.Sprintf("%s\n  limited UNION result contains duplicates: %s", c.SQL, val.JSON(out.Rows))
+		}
+		return ""
+	}
+	first := ""
+	for _, combined := range combos {
+		v := judge(combined)
+		if v == "" {
 			return res
 		}
-		if !val.MultisetEqual(out.Rows, combined) {
-			res.Violation = fmt.Sprintf("%s\n  expected multiset (%d rows) %s\n  got               (%d rows) %s", c.SQL, len(combined), val.JSON(combined), len(out.Rows), val.JSON(out.Rows))
+		if first == "" {
+			first = v
 		}
-		return res
 	}
-	res.Labels = append(res.Labels, "limit", fmt.Sprintf("limit-offset:%v", c.Offset > 0))
-	wantLen := len(c.window(combined))
-	if len(out.Rows) != wantLen {
-		res.Violation = fmt.Sprintf("%s\n  combined result has %d rows, LIMIT %d OFFSET %d must return %d, got %d: %s", c.SQL, len(combined), c.Limit, c.Offset, wantLen, len(out.Rows), val.JSON(out.Rows))
-		return res
+	if len(combos) > 1 {
+		first += fmt.Sprintf("\n  (no other of the %d admissible windows of the parenthesised UNION explains the result either)", len(combos))
 	}
-	if pureAll {
-		if d := diffRows(out.Rows, c.window(combined)); d != "" {
-			res.Violation = fmt.Sprintf("%s\n  %s\n  expected window %s\n  got             %s", c.SQL, d, val.JSON(c.window(combined)), val.JSON(out.Rows))
-		}
-		return res
-	}
-	if !val.SubMultiset(out.Rows, combined) {
-		res.Violation = fmt.Sprintf("%s\n  limited result is not part of the combined result\n  combined %s\n  got      %s", c.SQL, val.JSON(combined), val.JSON(out.Rows))
-		return res
-	}
-	if lastIsUnion && len(dedupRows(out.Rows)) != len(out.Rows) {
-		res.Violation = fmt.Sprintf("%s\n  limited UNION result contains duplicates: %s", c.SQL, val.JSON(out.Rows))
-	}
+	res.Violation = first
 	return res
+}
+
+// subsetsOf lists every k-element sub-sequence of rows (nil when there are more than max).
+func subsetsOf(rows []any, k, max int) [][]any {
+	out := [][]any{}
+	var rec func(start int, cur []any) bool
+	rec = func(start int, cur []any) bool {
+		if len(cur) == k {
+			if len(out) >= max {
+				return false
+			}
+			out = append(out, append([]any{}, cur...))
+			return true
+		}
+		for i := start; i <= len(rows)-(k-len(cur)); i++ {
+			if !rec(i+1, append(cur, rows[i])) {
+				return false
+			}
+		}
+		return true
+	}
+	if !rec(0, nil) {
+		return nil
+	}
+	return out
 }
 
 // refAggBranch is the reference result of one aggregate branch: the rows passing where, as a whole
